@@ -978,6 +978,113 @@ fn params_from_duo(w: &[&str]) -> Option<(Params, Params, String)> {
 }
 
 // ------------------------------------------------------------------------------------------
+// stalled consumer (async / WebSocket pullers): `pull_consume_async` with a consumer that reads a
+// little, sleeps (once long, or several times shorter), then drains.  Runs on its own thread,
+// concurrently with the rest of the tier.  One-sided oracle: `Ok` must carry exactly the producer's
+// bytes; an `Err`/watchdog on a loaded machine is a skip, never an alarm.
+// ------------------------------------------------------------------------------------------
+struct StallJob {
+    p: Params,
+    client: String,
+    built_logical: Vec<u8>,
+    stream_token: String,
+    evs_tok: String,
+    resource: String,
+    handle: std::thread::JoinHandle<HlOut>,
+}
+
+/// `st<ms>x<count>`
+fn parse_stall(v: &str) -> Option<(u64, usize)> {
+    let rest = v.strip_prefix("st")?;
+    let (ms, n) = rest.split_once('x')?;
+    Some((ms.parse().ok()?, n.parse().ok()?))
+}
+
+fn start_stall(sv: &mut Servers, p: &Params, client: &str) -> Option<StallJob> {
+    let (ms, count) = parse_stall(&p.variant)?;
+    let built = build(p)?;
+    let resource = register(built.spec.clone());
+    let addr = sv.addr(&p.srv, &p.kind, p.comp, p.chunk, p.depth)?;
+    let rt = sv.rt.handle().clone();
+    let is_ws = client == "wsc";
+    let res = resource.clone();
+    let budget = Duration::from_secs(60) + Duration::from_millis(ms * count as u64);
+    let handle = std::thread::spawn(move || {
+        rt.block_on(async move {
+            let consumer = move |mut reader: Box<dyn Read>| -> Result<Vec<u8>, repe::RepeError> {
+                let mut got = Vec::new();
+                for _ in 0..count {
+                    let mut small = [0u8; 16];
+                    let n = reader.read(&mut small)?;
+                    got.extend_from_slice(&small[..n]);
+                    std::thread::sleep(Duration::from_millis(ms));
+                }
+                reader.read_to_end(&mut got)?;
+                Ok(got)
+            };
+            let fut = async {
+                if is_ws {
+                    match repe::WebSocketClient::connect(&format!("ws://{}/repe", addr)).await {
+                        Ok(c) => repe::pull_consume_async(&c, &res, consumer).await.map(HlOut::Bytes).unwrap_or_else(|e| HlOut::Err(err_class(&e))),
+                        Err(e) => HlOut::Err(format!("connect:{e}")),
+                    }
+                } else {
+                    match repe::AsyncClient::connect(addr).await {
+                        Ok(c) => repe::pull_consume_async(&c, &res, consumer).await.map(HlOut::Bytes).unwrap_or_else(|e| HlOut::Err(err_class(&e))),
+                        Err(e) => HlOut::Err(format!("connect:{e}")),
+                    }
+                }
+            };
+            match tokio::time::timeout(budget, fut).await {
+                Ok(x) => x,
+                Err(_) => HlOut::Timeout,
+            }
+        })
+    });
+    Some(StallJob {
+        p: p.clone(),
+        client: client.to_string(),
+        stream_token: stream_tok(&built.logical, built.is_pattern),
+        evs_tok: built.evs_tok.clone(),
+        built_logical: built.logical,
+        resource,
+        handle,
+    })
+}
+
+fn finish_stall(job: StallJob, idx: &str) -> RawResult {
+    let p = &job.p;
+    let op = format!(
+        "hl {} {} {} consume {} {} {} {} {} {} {} {}",
+        idx, p.srv, job.client, p.kind, p.comp, p.chunk, p.depth, job.stream_token, job.evs_tok, p.end.tok(), p.aux()
+    );
+    let result = job.handle.join().unwrap_or(HlOut::Err("consumer thread panicked".into()));
+    unregister(&job.resource);
+    let mut failures = Vec::new();
+    let mut skip = false;
+    let obs = match &result {
+        HlOut::Bytes(b) => {
+            if *b != job.built_logical {
+                failures.push((
+                    "svs.hl.consume.stalled_bytes_mismatch".to_string(),
+                    format!(
+                        "pull_consume_async over {} with a consumer stalling {} reported success with {} bytes, producer emitted {}; first difference {:?}",
+                        job.client, p.variant, b.len(), job.built_logical.len(), first_diff(b, &job.built_logical)
+                    ),
+                ));
+            }
+            if job.stream_token.starts_with("z:") { format!("{idx} ok {}", b.len()) } else { format!("{idx} ok {} {}", b.len(), fnv(b)) }
+        }
+        // an error (or our own watchdog) is allowed by the property; it says nothing either way
+        _ => {
+            skip = true;
+            format!("{idx} err")
+        }
+    };
+    RawResult { op, obs, nontrivial: true, failures, skip }
+}
+
+// ------------------------------------------------------------------------------------------
 // high-level pullers
 // ------------------------------------------------------------------------------------------
 enum HlOut {
@@ -1190,6 +1297,21 @@ impl Runner {
             None => self.out.count("svs.generator.unbuildable"),
         }
     }
+    fn stall_start(&mut self, p: &Params, client: &str) -> Option<StallJob> {
+        self.count(p, "stall");
+        self.out.count(&format!("svs.hl.{client}.consume.{}", p.variant));
+        let j = start_stall(&mut self.sv, p, client);
+        if j.is_none() {
+            self.out.count("svs.generator.unbuildable");
+        }
+        j
+    }
+    fn stall_finish(&mut self, job: StallJob) {
+        self.n += 1;
+        let idx = format!("{}", self.n);
+        let r = finish_stall(job, &idx);
+        self.finish_case(r);
+    }
     fn duo(&mut self, pa: &Params, pb: &Params, script: &str) {
         self.n += 1;
         let idx = format!("{}", self.n);
@@ -1299,7 +1421,13 @@ fn main() {
             let w = words(&l);
             match w.first().copied() {
                 Some("raw") => if let Some((p, script)) = params_from_raw(&w) { run.raw(&p, &script); },
-                Some("hl") => if let Some((p, client, puller)) = params_from_hl(&w) { run.hl(&p, &client, &puller); },
+                Some("hl") => if let Some((p, client, puller)) = params_from_hl(&w) {
+                    if puller == "consume" {
+                        if let Some(j) = run.stall_start(&p, &client) { run.stall_finish(j); }
+                    } else {
+                        run.hl(&p, &client, &puller);
+                    }
+                },
                 Some("duo") => if let Some((pa, pb, script)) = params_from_duo(&w) { run.duo(&pa, &pb, &script); },
                 _ => {}
             }
@@ -1313,6 +1441,24 @@ fn main() {
     let small_chunks = [1usize, 2, 3, 7, 64, 4096];
     let srvs = ["tcp", "ws"];
     let mut rot = r.below(1000) as usize;
+
+    // (S) stalled consumers on the async / WebSocket pullers, on their own threads for the whole run
+    let mut stall_jobs: Vec<StallJob> = Vec::new();
+    {
+        let mut specs: Vec<(&str, &str, u8, &str)> = vec![("tcp", "async", 0, "st2800x1"), ("ws", "wsc", 0, "st2800x1"), ("tcp", "async", 0, "st700x4"), ("ws", "wsc", 0, "st700x4")];
+        if thorough {
+            specs.extend([("tcp", "async", 0, "st6000x1"), ("ws", "wsc", 0, "st6000x1"), ("tcp", "async", 0, "st12000x1"), ("ws", "wsc", 0, "st12000x1"),
+                          ("tcp", "async", 1, "st2800x1"), ("ws", "wsc", 1, "st6000x1"), ("tcp", "async", 0, "st2300x3"), ("ws", "wsc", 0, "st2300x3")]);
+        }
+        for (srv, client, comp, st) in specs {
+            let chunk = *r.pick(&[512usize, 1024, 2048]);
+            let mut p = base(srv, "reader", comp, chunk, 4);
+            p.len = chunk * (24 + r.below(24) as usize) + r.below(3) as usize;
+            if comp == 1 { p.seed = 1 + r.below(1 << 30); }
+            p.variant = st.to_string();
+            if let Some(j) = run.stall_start(&p, client) { stall_jobs.push(j); }
+        }
+    }
 
     // (A) boundary grid, uncompressed: every chunk size x k=0..4 x {-1,0,+1}
     for &chunk in &small_chunks {
@@ -1477,6 +1623,9 @@ fn main() {
                 }
             }
         }
+    }
+    for j in stall_jobs {
+        run.stall_finish(j);
     }
     run.out.finish();
     std::process::exit(0);
